@@ -154,8 +154,9 @@ def _spec_tg(i, j, dupnames=False):
     mid = "0.5" if float(hi) > 1 else "0.00001"
     return {"xmin": lo, "xmax": hi, "tiers": [
         {"class": "IntervalTier", "name": "words", "xmin": lo, "xmax": hi, "entries": [(lo, mid, lab), (mid, hi, "")]},
-        {"class": "TextTier", "name": "words" if dupnames else "marks", "xmin": lo, "xmax": hi, "entries": [(mid, lab)]},
-        {"class": "IntervalTier", "name": "empty", "xmin": lo, "xmax": hi, "entries": []},
+        # tiers need not span their container: one starts later, one ends earlier
+        {"class": "TextTier", "name": "words" if dupnames else "marks", "xmin": mid, "xmax": hi, "entries": [(mid, lab)]},
+        {"class": "IntervalTier", "name": "empty", "xmin": lo, "xmax": mid, "entries": []},
     ]}
 
 
@@ -186,6 +187,8 @@ def ob_files_concrete():
                     return "entries of tier %s: %r" % (st["name"], [tuple(e) for e in rt.entries])
                 if rt.tierType != st["class"]:
                     return "tier class"
+                if (rt.minTimestamp, rt.maxTimestamp) != (abs(float(st["xmin"])), float(st["xmax"])):
+                    return "span of tier %s: %r" % (st["name"], (rt.minTimestamp, rt.maxTimestamp))
             return True
         finally:
             shutil.rmtree(d, ignore_errors=True)
